@@ -264,7 +264,14 @@ func (t *Thread) end(args []Value, err error, exception interface{}) {
 	close(t.resumeCh)
 	t.status = ThreadDead
 	t.caller = nil
-	err = t.cleanupCloseStack(nil, 0, err) // TODO: not nil
+	if _, killed := exception.(ContextTerminationError); killed {
+		// The context ran out of resources: there is nothing left to run the
+		// pending to-be-closed values with, so just discard them (as
+		// CallContext does).
+		t.closeStack.truncate(0)
+	} else {
+		err = t.cleanupCloseStack(nil, 0, err) // TODO: not nil
+	}
 	t.closeErr = err
 	// Release the goroutine's memory before handing control back: once the
 	// caller has received the values it runs again and owns the runtime, so
